@@ -18,14 +18,15 @@ META = {
              "with extreme usize values, unknown special tokens and failing encodings; outcomes (chunks incl. token-type "
              "counts / Err / panic) are compared inside Coq, and the implementation's own output is judged by an executable "
              "oracle that does not use the model. Finding F20 (panic when overlap >= input length but < window) was repaired "
-             "in rten-text (fix: commit on branch verif-chunks); the theorems are about the repaired code."),
+             "in rten-text (fix: commit ebb744b on branch verif-chunks); the theorems are about the repaired code."),
     "note": ("Trusted: Coq kernel; the correspondence sample (a test, not a proof); std's slice::windows / Iterator::step_by / "
              "Vec semantics as modelled; Model::encode, normalizers and pre-tokenizers (the token sequences are universally "
              "quantified inputs of the theorems; the harness uses a one-char-one-token Model so that ids are predictable). "
              "Token *offsets* of Encoded are not modelled. For pairs the windows are over the second sequence (the first is a "
              "fixed prefix); a pair whose second sequence is empty yields no chunk at all (stated by the totality theorem, "
-             "accepted by the oracle). The executable oracle has no reflection lemma: its clauses mirror the Prop-level "
-             "statements by inspection."),
+             "accepted by the oracle). The executable oracle has a soundness lemma for the Chunks outcome (C29_oracle_sound: no "
+             "failure code => the observed chunks satisfy the Prop-level property); the converse (a failure code is a genuine "
+             "violation) holds for duplicate-free token ids by inspection and is what the replay file lets a reader confirm."),
     "technique": "Coq proof (structural induction on lists, nth_error extensionality, div/mod arithmetic) + model/implementation correspondence",
 }
 GROUP = "chunks"
@@ -33,7 +34,7 @@ REQ = "From RV Require Import Prelude.\nFrom Chunks Require Import ModelChunks.\
 THEOREMS = ["C29_chunks_with_overlap_layout", "C29_totality", "C29_windows_contiguous", "C29_one_chunk_per_window",
             "C29_chunk_len_bound", "C29_consecutive_overlap_exact", "C29_consecutive_overlap_iff",
             "C29_remainder_chunk_adjacent", "C29_consecutive_overlap_refuted", "C29_consecutive_overlap_refuted_pair",
-            "C29_windows_in_order", "C29_windows_span", "C29_windows_cover", "C29_nonvacuous"]
+            "C29_windows_in_order", "C29_windows_span", "C29_windows_cover", "C29_oracle_sound", "C29_nonvacuous"]
 
 
 def main(ctx):
